@@ -26,8 +26,8 @@ PLANS = {
           [("resample", 2000), ("boundary", 10), ("boundary", 60), ("boundary_reader", 60), ("sparse_boundary", 12)]),
  "C11": P([("caches", 30), ("cache_sections", 12), ("caches_reopen", 10), ("boundary_reader_c", 38), ("sparse_boundary", 4)],
           [("caches", 800), ("cache_sections", 150), ("caches_reopen", 300), ("boundary_reader_c", 60), ("sparse_boundary", 12)]),
- "C12": P([("roundtrip", 40), ("reopen", 15), ("torn", 30), ("index_states", 15), ("boundary", 12), ("boundary2", 6), ("lastmeta", 16)],
-          [("roundtrip", 800), ("reopen", 400), ("torn", 600), ("index_states", 400), ("boundary", 60), ("boundary2", 60), ("lastmeta", 160)]),
+ "C12": P([("roundtrip", 40), ("reopen", 15), ("torn", 30), ("index_states", 15), ("boundary", 12), ("boundary2", 6), ("lastmeta", 16), ("refuse", 15)],
+          [("roundtrip", 800), ("reopen", 400), ("torn", 600), ("index_states", 400), ("boundary", 60), ("boundary2", 60), ("lastmeta", 160), ("refuse", 300)]),
  "C13": P([("ranges", 70), ("bigsection", 3), ("boundary", 12), ("boundary_reader", 12)],
           [("ranges", 2500), ("bigsection", 40), ("boundary", 110), ("boundary_reader", 80)]),
  "C14": P([("ranges", 70), ("bigsection", 3), ("boundary", 12), ("boundary_reader", 12)],
